@@ -21,4 +21,11 @@ def Before (l : List Chunk) (a b : Chunk) : Prop := ∃ l1 l2 l3, l = l1 ++ a ::
 /-- a network reachable from a fresh one (any topology, any NAT configuration) by any operations -/
 def Reach (n : Net) : Prop := ∃ n0 ops, n0.Fresh ∧ n = run n0 ops
 
+/-- a fresh network whose clock stands at 0 and whose NATs are freshly constructed (any configuration) -/
+def Fresh2 (n : Net) : Prop :=
+  n.Fresh ∧ n.now = 0 ∧
+  ∀ r ∈ n.routers, ∀ nat, r.nat = some nat → ∃ o mb fb lt mapped loc, NAT.new o mb fb lt mapped loc = some nat
+
+def Reach2 (n : Net) : Prop := ∃ n0 ops, Fresh2 n0 ∧ n = run n0 ops
+
 end TV.VnetLink
